@@ -134,6 +134,40 @@ def extra_encodings():
     return E
 
 
+def addressing_encodings(tier):
+    """LEA r64,[base+index*scale+disp] over every SIB base x index (x scale) with every REX.X/REX.B combination
+    (index=100b with REX.X is r12, a real index; base=101b with mod 0 is disp32), plus 67-prefixed (32-bit address)
+    forms and MOV loads through the same addressing bytes"""
+    E = []
+    full = tier == "thorough"
+    scales = (0, 1, 2, 3) if full else (0, 2)
+    mods = (0, 1, 2) if full else (0, 1)
+    for xb in range(4):
+        rex = 0x48 | xb
+        for mod in mods:
+            for sc in scales:
+                for idx in range(8):
+                    for base in range(8):
+                        sib = (sc << 6) | (idx << 3) | base
+                        if mod == 0:
+                            disp = b"\x10\x00\x00\x00" if base == 5 else b""
+                        elif mod == 1:
+                            disp = b"\x10"
+                        else:
+                            disp = b"\x10\x01\x00\x00"
+                        E.append(bytes([rex, 0x8D, (mod << 6) | 0x04, sib]) + disp)
+                        if sc == 0 and mod == 0:
+                            E.append(bytes([rex, 0x8B, 0x04, sib]) + disp)
+                        if mod == 1 and (full or sc == 2) and xb in (0, 3):
+                            E.append(bytes([0x67, rex, 0x8D, 0x44, sib]) + disp)
+    # REX.R / REX.B on the register-direct and [reg] forms
+    for rex in range(0x40, 0x50):
+        for rm in range(8):
+            E.append(bytes([rex, 0x8D, 0x40 | rm]) + (b"\x24" if rm == 4 else b"") + b"\x08")
+            E.append(bytes([rex, 0x89, 0xC0 | rm]))
+    return E
+
+
 def candidates(tier):
     """hex encodings (decoded by amoco x64, mnemonic in the allow-list)"""
     from amc.checks import c02
@@ -145,7 +179,7 @@ def candidates(tier):
         if mn in ALLOW and h not in seen:
             seen.add(h)
             out.append(h)
-    for e in extra_encodings():
+    for e in extra_encodings() + addressing_encodings(tier):
         if e.hex() not in seen:
             seen.add(e.hex())
             out.append(e.hex())
@@ -232,8 +266,11 @@ def unit(args):
             continue
         status, nregs, nflags, changes = nat
         b = bytes.fromhex(h)
+        same_in_32 = False     # set when the 64-bit decoding shows the bytes mean the same in IA-32
         for mode in (64, 32):
             if mode == 32:
+                if not same_in_32:
+                    continue
                 if any(x in b[:4] for x in (0x67,)) or (0x40 <= b[0] <= 0x4F) or (len(b) > 1 and b[0] in (0x66, 0xF2, 0xF3) and 0x40 <= b[1] <= 0x4F):
                     continue
             d = d64 if mode == 64 else d32
@@ -247,7 +284,9 @@ def unit(args):
                 continue
             mn = str(ins.mnemonic)
             if any(getattr(o, "_is_mem", False) and "rip" in str(o) for o in ins.operands):
-                continue      # rip-relative operands would address the harness code itself
+                continue      # rip-relative operands would address the harness code itself (and are absolute in IA-32)
+            if mode == 64:
+                same_in_32 = True
             if mn == "BSWAP" and 0x66 in b[:2]:
                 continue      # 16-bit BSWAP is architecturally undefined
             if mn not in ALLOW or (mode == 32 and (mn in NO_IA32 or mn.startswith(("MOVS", "STOS", "LODS", "SCAS", "CMPS", "XLAT")))):
